@@ -267,3 +267,10 @@ Definition ev_atomic (cl : cluster) (e : mevent) : bool :=
   end.
 Fixpoint run_ok (P : cluster -> mevent -> bool) (cl : cluster) (es : list mevent) : bool :=
   match es with [] => true | e :: r => P cl e && run_ok P (step cl e) r end.
+
+(* Consensus.Shutdown of replica n, under shutdownLock (commit() holds its read side around CommitOp, so no operation is
+   committed at n - and none acknowledged at n - in between): the final snapshot is requested and written; then Raft stops.
+   The process starting again on the same folder restores the newest snapshot (its k-th). *)
+Definition shutdown (n : nat) : list mevent := [MSnapReq n; MPersist n].
+Definition from_disk (n k : nat) : list mevent := [MRestart n; MRestore n n k].
+
